@@ -108,6 +108,12 @@ pub struct StunDecoded {
     pub nonce: Option<String>,
     pub data: Option<Vec<u8>>,
     pub use_candidate: bool,
+    /// USERNAME attribute (0x0006), if present and valid UTF-8.
+    pub username: Option<String>,
+    /// MESSAGE-INTEGRITY attribute (0x0008), if present: the HMAC-SHA1 value and
+    /// the bytes it covers (the message up to the attribute, with the header
+    /// length adjusted to end at it, RFC 5389 15.4). See `has_valid_integrity`.
+    integrity: Option<(Vec<u8>, [u8; 20])>,
     /// Value of the LIFETIME attribute (0x000D), if present (TURN Allocate /
     /// Refresh responses). Honored per RFC 5766 §2.2 — the server may grant a
     /// lifetime shorter than the one requested by the client.
@@ -327,10 +333,13 @@ fn decode_stun_message(bytes: &[u8]) -> Result<StunDecoded> {
     let mut nonce = None;
     let mut data = None;
     let mut use_candidate = false;
+    let mut username = None;
+    let mut integrity = None;
     let mut lifetime = None;
     while offset + 4 <= bytes.len() {
         let typ = u16::from_be_bytes([bytes[offset], bytes[offset + 1]]);
         let len = u16::from_be_bytes([bytes[offset + 2], bytes[offset + 3]]) as usize;
+        let attr_start = offset;
         offset += 4;
         if offset + len > bytes.len() {
             break;
@@ -380,6 +389,29 @@ fn decode_stun_message(bytes: &[u8]) -> Result<StunDecoded> {
             0x0025 => {
                 use_candidate = true;
             }
+            0x0006 => {
+                username = std::str::from_utf8(value).ok().map(str::to_string);
+            }
+            0x0008 => {
+                // Only the first MESSAGE-INTEGRITY counts; what follows it (other
+                // than FINGERPRINT) is not covered by it.
+                if integrity.is_none() && value.len() == 20 {
+                    // The length field counts what follows the 20-byte header, up to
+                    // and including this 24-byte attribute: attr_start - 20 + 24.
+                    let mut covered = bytes[..attr_start].to_vec();
+                    let covered_len = (attr_start + 4) as u16;
+                    let [hi, lo] = covered_len.to_be_bytes();
+                    if let Some(b) = covered.get_mut(2) {
+                        *b = hi;
+                    }
+                    if let Some(b) = covered.get_mut(3) {
+                        *b = lo;
+                    }
+                    let mut tag = [0u8; 20];
+                    tag.copy_from_slice(value);
+                    integrity = Some((covered, tag));
+                }
+            }
             _ => {}
         }
         offset += len;
@@ -397,8 +429,27 @@ fn decode_stun_message(bytes: &[u8]) -> Result<StunDecoded> {
         nonce,
         data,
         use_candidate,
+        username,
+        integrity,
         lifetime,
     })
+}
+
+impl StunDecoded {
+    /// True when the message carries a MESSAGE-INTEGRITY attribute whose value is
+    /// the HMAC-SHA1 of the covered part of the message under `key` (for an ICE
+    /// connectivity check: the receiver's own ICE password).
+    pub fn has_valid_integrity(&self, key: &[u8]) -> bool {
+        let Some((covered, tag)) = &self.integrity else {
+            return false;
+        };
+        let expected = hmac_sha1(key, covered);
+        let mut diff = 0u8;
+        for (x, y) in expected.iter().zip(tag.iter()) {
+            diff |= x ^ y;
+        }
+        diff == 0
+    }
 }
 
 fn parse_xor_address(value: &[u8], transaction_id: &[u8; 12]) -> Result<Option<SocketAddr>> {
